@@ -11,6 +11,9 @@ def run(tier):
     wd = common.workdir("c01")
     vr = viewops.ViewRun(rep, "C01", True, wd)
     todo = [(op, D) for op in viewops.OPS if op.c01 for D in range(op.mind, min(op.maxd, maxd) + 1)]
+    extra, nskip = viewops.variants(todo, wd, "C01")
+    rep.extra["value_category_variants"] = dict(evaluated=len(extra), not_existing=nskip)
+    todo = todo + extra
     vr.compile_shards(todo, nshards=12)
     for op, D in todo:
         vr.check_op(op, D, "O01")
